@@ -641,6 +641,177 @@ def int_range_cases(ctx, h, n_cases, cov, fixed=None):
     cov["integer_conversion"] = {"cases": len(cases), "site/class": hist, "silently_wrapped_on_real_code": reproduced,
                                  "out_of_range_refused_by_real_code_only": checked_rej}
 
+
+# ----------------------------------------------------------------------------- the public coefficient setters
+def gen_setter_ops(rng, n):
+    """a sequence of setter calls on a fresh polynomial of degree n; mostly one family (no assertion can fail), sometimes mixed"""
+    r = rng.random()
+    fam = "int" if r < 0.25 else "rat" if r < 0.6 else "flt" if r < 0.8 else "mixed"
+    k = rng.choice([1, 2, 3, n + 1, 2 * n + 2, 3 * n])
+    ops = []
+    def small(): return rng.choice([0, 0, 1, -1, 2, rng.randint(-10 ** 6, 10 ** 6), rng.randint(-2 ** 62, 2 ** 62)])
+    def dbl(): return rng.choice([0.0, 0.0, 1.0, -2.5, 0.1, 1e300, -1e-300, rng.uniform(-10, 10), float(rng.randint(-2 ** 53, 2 ** 53))])
+    for j in range(k):
+        i = rng.randint(0, n)
+        if fam == "mixed": f = rng.choice(["int", "rat", "rat", "flt", "mpc"]) if j else rng.choice(["int", "int", "rat", "flt", "mpc"])
+        else: f = fam if not (fam == "flt" and rng.random() < 0.3) else "mpc"
+        real_only = rng.random() < 0.5
+        if f == "int":
+            ops.append(("int", i, small(), 0 if real_only else small()))
+        elif f == "rat":
+            if rng.random() < 0.5:
+                a = gen_rat(rng); b = ZERO if real_only else gen_rat(rng)
+                fr = lambda q: Fraction(q[1]) if q[0] == "I" else Fraction(q[1], q[3])
+                ops.append(("q", i, fr(a), fr(b)))
+            else:
+                def st():
+                    r_ = rng.random()
+                    if r_ < 0.15: return None
+                    if r_ < 0.3:
+                        q = gen_rat(rng); return str(q[1]) if q[0] == "I" else "%d/%d" % (q[1], q[3])
+                    return gen_lit(rng, api=True, light=True).text()
+                ops.append(("s", i, st(), None if real_only else st()))
+        elif f == "flt":
+            ops.append(("d", i, dbl(), 0.0 if real_only else dbl()))
+        else:
+            ops.append(("f", i, rng.choice([53, 64, 128, 200]), dbl(), 0.0 if real_only else dbl()))
+    return fam, ops
+
+def setter_ops_from_replay(ops):
+    out = []
+    for o in ops:
+        k = o[0]
+        if k == "int": out.append(("int", int(o[1]), int(o[2]), int(o[3])))
+        elif k == "q": out.append(("q", int(o[1]), Fraction(o[2]), Fraction(o[3])))
+        elif k == "s": out.append(("s", int(o[1]), None if o[2] == "None" else o[2], None if o[3] == "None" else o[3]))
+        elif k == "d": out.append(("d", int(o[1]), float(o[2]), float(o[3])))
+        else: out.append(("f", int(o[1]), int(o[2]), float(o[3]), float(o[4])))
+    return out
+
+def setter_cases(ctx, h, n_cases, cov, fixed=None):
+    """sequences of mps_monomial_poly_set_coefficient_{int,q,s,d,f} on a fresh polynomial: the real stores (structure, spar,
+    initial_mqp_r/i, mfpc, get_coefficient_q) against the extracted SetterModel.run, and the get-after-set law evaluated
+    independently here (last exact value written at each index; API strings by the Fraction oracle)"""
+    rng = ctx.rng
+    d = os.path.join(ctx.scratch, "setters"); os.makedirs(d, exist_ok=True)
+    cases, jobs, mlines = [], [], []
+    def fq(x): return "%d,%d" % (x.numerator, x.denominator)
+    plan = fixed if fixed is not None else [None] * n_cases
+    for k, fx in enumerate(plan):
+        n = rng.randint(1, 6)
+        fam, ops = gen_setter_ops(rng, n)
+        if fx is not None: n, fam, ops = fx
+        p = os.path.join(d, "p_%d.txt" % k)
+        enc = []
+        with open(p, "w", encoding="latin-1") as f:
+            f.write("%d\n" % n)
+            for o in ops:
+                if o[0] == "int": f.write("int\t%d\t%d\t%d\n" % o[1:]); enc.append("I,%d,%d,%d" % o[1:])
+                elif o[0] == "q": f.write("q\t%d\t%s\t%s\n" % (o[1], o[2], o[3])); enc.append("Q,%d,%s,%s" % (o[1], fq(o[2]), fq(o[3])))
+                elif o[0] == "s":
+                    f.write("s\t%d\t%s\t%s\n" % (o[1], "NULL" if o[2] is None else o[2], "NULL" if o[3] is None else o[3]))
+                    enc.append("S,%d,%s,%s" % (o[1], "~" if o[2] is None else xh(o[2]), "~" if o[3] is None else xh(o[3])))
+                elif o[0] == "d":
+                    f.write("d\t%d\t%s\t%s\n" % (o[1], o[2].hex(), o[3].hex())); enc.append("D,%d,%s,%s" % (o[1], fq(Fraction(o[2])), fq(Fraction(o[3]))))
+                else:
+                    f.write("f\t%d\t%d\t%s\t%s\n" % (o[1], o[2], o[3].hex(), o[4].hex())); enc.append("F,%d,%s,%s" % (o[1], fq(Fraction(o[3])), fq(Fraction(o[4]))))
+        cases.append((n, fam, ops)); jobs.append("P " + p); mlines.append("SETTERS %d %s" % (n, ";".join(enc)))
+    blocks = run_harness_resume(ctx, h, jobs)
+    mout = ctx.run_model("polfile", "\n".join(mlines) + "\n").splitlines()
+    if len(mout) != len(cases):
+        raise vf.InfraError("polfile driver SETTERS: expected %d lines, got %d" % (len(cases), len(mout)))
+    hist = {"family": {}, "calls": {}, "outcome": {}, "setter": {}}
+    def bump(a, b): hist[a][b] = hist[a].get(b, 0) + 1
+    def str_val(t):
+        """the value a string denotes for set_coefficient_s, by the oracle; None if outside its domain"""
+        if t is None: return Fraction(0)
+        try:
+            if "/" in t: return Fraction(t)
+            t2 = t.replace(" ", ""); sg = 1
+            while t2[:1] in "+-":
+                if t2[0] == "-": sg = -sg
+                t2 = t2[1:]
+            return sg * Fraction(t2)
+        except (ValueError, ZeroDivisionError):
+            return None
+    for (n, fam, ops), blk, ml in zip(cases, blocks, mout):
+        cov["evaluations"] += 1
+        bump("family", fam); bump("calls", "1-3" if len(ops) <= 3 else "4-12" if len(ops) <= 12 else ">12")
+        for o in ops: bump("setter", o[0])
+        rep = {"mode": "setters", "degree": n, "ops": [[str(x) for x in o] for o in ops]}
+        w = ml.split(" ")
+        if "crash" in blk:
+            asserted = "Assertion" in blk["crash"]
+            bump("outcome", "assertion-abort" if asserted else "crash")
+            if not asserted:
+                ctx.violation("crash:setters", "setter sequence crashes: %s" % blk["crash"][:300].replace("\n", " | "), dict(rep, stderr=blk["crash"]))
+            elif w[1] != "ABORT":
+                cov["disagreements"] += 1
+                ctx.violation("correspondence:setters/abort", "a setter's assertion fails on the real code, the model says %s" % " ".join(w[1:3]), rep, no_input=True)
+            continue
+        real = parse_real_result(blk["lines"])
+        if w[1] in ("ABORT", "OOB"):
+            cov["disagreements"] += 1
+            ctx.violation("correspondence:setters/abort", "the model says %s, the real setters return" % w[1], rep, no_input=True)
+            continue
+        bump("outcome", "ok/" + real.get("struct", "?"))
+        # ---- the law, evaluated here: last exact write per index, spar of the last write
+        last, nz, ok_oracle = {}, {}, True
+        for o in ops:
+            if o[0] == "int": last[o[1]] = (Fraction(o[2]), Fraction(o[3])); nz[o[1]] = o[2] != 0 or o[3] != 0
+            elif o[0] == "q": last[o[1]] = (o[2], o[3]); nz[o[1]] = o[2] != 0 or o[3] != 0
+            elif o[0] == "s":
+                a, b = str_val(o[2]), str_val(o[3])
+                if a is None or b is None: ok_oracle = False; break
+                last[o[1]] = (a, b); nz[o[1]] = a != 0 or b != 0
+            elif o[0] == "d": nz[o[1]] = o[2] != 0 or o[3] != 0
+            else: nz[o[1]] = o[3] != 0 or o[4] != 0
+        exact = real.get("struct", "??")[-1:] in ("i", "q")
+        if ok_oracle:
+            for i in range(n + 1):
+                q = real["Q"].get(("c", i))
+                want = last.get(i, (Fraction(0), Fraction(0)))
+                if q is None or q[0][1] == 0 or q[1][1] == 0 or (frac(q[0]), frac(q[1])) != want:
+                    ctx.violation("setters:get-after-set", "initial_mqp[%d] = %r after the calls, the last exact value set there is %s" % (i, q and q[:2], want), rep); break
+                if not (is_canonical(q[0]) and is_canonical(q[1])):
+                    ctx.violation("noncanonical:api/setters", "initial_mqp[%d] = %r is not canonical" % (i, q[:2]), rep); break
+                if exact and i in real["GQ"] and (frac(real["GQ"][i][0]), frac(real["GQ"][i][1])) != want:
+                    ctx.violation("setters:get_q", "mps_monomial_poly_get_coefficient_q(%d) differs from the last value set" % i, rep); break
+                if real.get("spar", "")[i:i + 1] != ("1" if nz.get(i, False) else "0"):
+                    ctx.violation("setters:spar", "spar[%d] = %s, the last value written there is %szero" % (i, real.get("spar", "")[i:i + 1], "non-" if nz.get(i) else ""), rep); break
+            st = real.get("struct", "??")
+            if st[-1:] == "i" and any(v[0].denominator != 1 or v[1].denominator != 1 for v in last.values()):
+                ctx.violation("setters-structure:integer-with-rational-coefficient", "structure is %s but a coefficient set through _q/_s is not an integer" % st, rep)
+            elif st[:1] == "r" and st[-1:] in ("i", "q") and any(v[1] != 0 for v in last.values()):
+                ctx.violation("setters-structure:real-with-complex-coefficient", "structure is %s but a stored coefficient has a non-zero imaginary part" % st, rep)
+        # ---- model vs real: structure, spar, exact store, mfpc
+        i_q = w.index("Q"); i_fp = w.index("FP"); i_get = w.index("GET")
+        m_struct, m_spar = w[1], w[2][1:]
+        mq = w[i_q + 1:i_fp]; mfp = w[i_fp + 1:i_get]
+        dm = None
+        if {"unknown": "??"}.get(m_struct, m_struct) != real.get("struct"): dm = "structure: real %s model %s" % (real.get("struct"), m_struct)
+        elif m_spar != real.get("spar"): dm = "spar: real %s model %s" % (real.get("spar"), m_spar)
+        elif (w[i_get + 1] == "1") != exact: dm = "get_q answers: model %s" % w[i_get + 1]
+        else:
+            for i in range(n + 1):
+                a, b, c, e = (int(x, 16) for x in mq[i].split(","))
+                q = real["Q"].get(("c", i))
+                if q is None or (q[0], q[1]) != ((a, b), (c, e)): dm = "initial_mqp[%d]: real %r model %r" % (i, q and q[:2], ((a, b), (c, e))); break
+                m = real["M"].get(("c", i))
+                if mfp[i].startswith("e,"):
+                    x = [int(t, 16) for t in mfp[i].split(",")[1:]]
+                    if m is None or mpf_val(m[0]) != Fraction(x[0], x[1]) or mpf_val(m[1]) != Fraction(x[2], x[3]):
+                        dm = "mfpc[%d]: real %r, model exactly %s" % (i, m and m[:2], mfp[i]); break
+                elif mfp[i] == "q":
+                    if m is None or not within(mpf_val(m[0]), Fraction(a, b), 63) or not within(mpf_val(m[1]), Fraction(c, e), 63):
+                        dm = "mfpc[%d] is not the rounding of the exact coefficient" % i; break
+                elif m is None or mpf_val(m[0]) != 0 or mpf_val(m[1]) != 0:
+                    dm = "mfpc[%d] not zero on a fresh polynomial" % i; break
+        if dm:
+            cov["disagreements"] += 1
+            ctx.violation("correspondence:setters", "setter model and real stores disagree: " + dm, rep, no_input=True)
+    cov["setter_sequences"] = hist
+
 # ----------------------------------------------------------------------------- the check
 def run_harness(ctx, h, jobs, timeout=600):
     rc, out, err = vf.sh([h], input="\n".join(jobs) + "\n", timeout=timeout, env=ctx.san_env())
@@ -970,7 +1141,10 @@ def do_replay(ctx, h):
     cov = {"evaluations": 1, "distinct_nontrivial": 1, "rule": "replay of one stored case", "samples": [obj.get("signature")],
            "disagreements": 0, "api_strings": 0, "trusted_base": ["replay"]}
     mode = obj.get("mode")
-    if obj.get("what_for") == "int-range":
+    if mode == "setters":
+        cov["disagreements"] = 0
+        setter_cases(ctx, h, 0, cov, fixed=[(int(obj["degree"]), "replay", setter_ops_from_replay(obj["ops"]))])
+    elif obj.get("what_for") == "int-range":
         c = {"site": obj["site"], "class": obj.get("class", "replay"), "written": int(obj["written"]), "field": obj["field"],
              "text": bytes.fromhex(obj["text_hex"]).decode("latin-1"), "n": obj["n"], "mode": mode}
         cov["disagreements"] = 0
@@ -1121,6 +1295,8 @@ def run(ctx):
     ctx.log("integer conversion cases done")
     api_cases(ctx, h, ctx.pick(300, 3000), cov)
     ctx.log("api done")
+    setter_cases(ctx, h, ctx.pick(500, 5000), cov)
+    ctx.log("setter sequences done")
     replay_witnesses(ctx, h, cov)
     shipped_differential(ctx, h, cov)
     ctx.log("shipped files done")
